@@ -1452,6 +1452,9 @@ class AdapterIndex:
             if length < best_m:
                 # No chance of getting the same or a higher number of matches, so we can stop early
                 break
+            if length > len(sequence):
+                # An affix of this length does not exist in the read
+                continue
             affix = self._make_affix(affix, length)
             if "N" in affix:
                 result = self._lookup_with_n(affix)
